@@ -39,6 +39,7 @@ func init() {
 		Rules: []Rule{
 			{"R10.1", "scale constants, types, single decoder", ruleTicksScaleAgreement},
 			{"R10.4", "integer-valued float64 arithmetic of the encoder stays below 2^53", ruleFloatExactness},
+			{"R10.5", "the decoder uses the ticks for every supported timeframe", ruleDecoderUsesTicksForEveryTimeframe},
 			{"R9.3", "ticks codec agreement", ruleTicksCodecAgreement},
 			{"R30.2", "one time-zone source", ruleOneTimezoneSource},
 		},
@@ -52,6 +53,7 @@ func init() {
 			{"R11.2", "variable results are always trimmed; limit after range", ruleTrimOrder},
 			{"R11.3", "year files are selected by calendar year (no fixed-length year)", ruleNoFixedLengthYear},
 			{"R11.4", "query bounds are never converted to nanosecond counts", ruleBoundsNotAsUnixNano},
+			{"R9.2", "variable-length intervals are stored sorted (the range trim searches from both ends)", ruleSortBeforeWrite},
 			{"R13.5", "the chunk buffer of the scanner holds whole records", ruleReadBufferWholeRecords},
 		},
 	})
